@@ -712,7 +712,10 @@ impl BufferedDatabaseWriter {
         #[cfg(feature = "verif")]
         crate::verif::fault_abort_only("before_marks");
         //at the end of the batch, update the daily log with all room dates that needs to be recomputed
-        daily_log.write(conn)?;
+        if let Err(e) = daily_log.write(conn) {
+            conn.execute("ROLLBACK", [])?;
+            return Err(e);
+        }
         #[cfg(feature = "verif")]
         crate::verif::fault_abort_only("before_commit");
         conn.execute("COMMIT", [])?;
